@@ -26,7 +26,8 @@ def setup_side(env, disk_files=None):
     se.install(clock_spec=env['clock'], hash_spec=env['hash'], disk=disk)
     S.hold_junk(*env['junk'])
     if env.get('host'):
-        S.patch_process_clock(se.clock, host=env['host'], pid=env.get('pid'), cpus=env.get('cpus'))
+        S.patch_process_clock(se.clock, host=env['host'], pid=env.get('pid'), cpus=env.get('cpus'),
+                               mem_pages=env.get('mem_pages'))
     pe = env.get('environ')
     if pe:
         # process environment of this side: nothing of it may reach stdout
